@@ -416,7 +416,49 @@ class C14(F.Spec):
                 fs.append((F.Finding("segmentation-changes-result", "a request cut after '&' gives a different record than the "
                                      "same request in one segment"), c.ops))
                 break
+        # the cut that every browser/stack produces: the head in one segment, the body in the next
+        for i in range(n):
+            c = self.gen(rng, 200000 + i)
+            while c.meta["shape"] != "form":
+                c = self.gen(rng, rng.randrange(1 << 30))
+            req = bytes.fromhex(c.meta["req"])
+            cut = c.meta["body_off"]
+            base = [o for o in c.ops if not o.startswith("seg ")]
+            k = base.index("show", base.index("conn")) + 1
+            outs = []
+            variants = (base[:k] + ["seg " + req[:cut].hex(), "seg " + req[cut:].hex()] + base[k:], base[:k] + ["seg " + req.hex()] + base[k:])
+            for ops in variants:
+                rc, out, err = C.run_lines([exe], "\n".join(ops) + "\n")
+                rec = [l for l in out if l.startswith("CFGREC ")]
+                outs.append(rec[-1] if rec else None)
+            ev += 1
+            if outs[0] != outs[1]:
+                fs.append((F.Finding("head-body-split-changes-result", "a request whose head and body arrive in two segments gives a "
+                                     "different record than the same request in one segment"), variants[0]))
+                break
         return ev, ev, fs
+
+    def extra_replay(self, ops):
+        """a replayed request in two segments is compared with the same bytes in one segment (head/body split only: cuts inside
+        the body are the recorded finding segmentation-changes-result)"""
+        import common as C
+        idx = [k for k, o in enumerate(ops) if o.startswith("seg ")]
+        if len(idx) != 2 or idx[1] != idx[0] + 1:
+            return []
+        a, b = bytes.fromhex(ops[idx[0]].split()[1]), bytes.fromhex(ops[idx[1]].split()[1])
+        if not a.endswith(b"\r\n\r\n"):
+            return []
+        one = ops[:idx[0]] + ["seg " + (a + b).hex()] + ops[idx[1] + 1:]
+        exe = self.driver_build()
+        outs = []
+        for o in (ops, one):
+            rc, out, err = C.run_lines([exe], "\n".join(o) + "\n")
+            rec = [l for l in out if l.startswith("CFGREC ")]
+            outs.append(rec[-1] if rec else None)
+        if outs[0] != outs[1]:
+            return [F.Finding("head-body-split-changes-result", "a request whose head and body arrive in two segments gives a different "
+                              "record than the same request in one segment")]
+        return []
 
     def nontrivial_key(self, case, groups):
         raw = case.meta.get("raw_impl") or []
